@@ -256,6 +256,34 @@ def chk_coords(case, acc, seed):
         if rm.maxerr(got, want) > 1e-12:
             acc.violation('coords:supplied-arrays-history', case, 'the value at caller-supplied coordinates changed after the same arrays were used with a smaller mask')
         acc.cls('supplied-reuse')
+    if val == 1 and len(pts) >= 3 and dmax > 0:
+        # the rotate argument is an angle in degrees: a full turn is no rotation, a quarter turn is +-pi/2, opposite angles cancel,
+        # and it leaves rho alone (which way is positive is not judged)
+        try:
+            r0, t0 = lentil.zernike_coordinates(mask)
+            offs = {}
+            for a in (90, -90, 180, 360, 30, 60):
+                ra, ta = lentil.zernike_coordinates(mask, rotate=a)
+                if rm.maxerr(ra, r0) > 1e-12:
+                    acc.violation('coords:rotate-changes-rho', dict(case, rotate=a), 'rotate changes rho')
+                sel = on & (dist > 1e-9)
+                d = np.angle(np.exp(1j * (np.asarray(ta)[sel] - np.asarray(t0)[sel])))
+                if np.max(np.abs(np.exp(1j * d) - np.exp(1j * d[0]))) > 1e-9:
+                    acc.violation('coords:rotate-not-rigid', dict(case, rotate=a), 'rotate does not shift theta by one constant angle')
+                offs[a] = d[0]
+            def off(x, y):
+                return abs(np.angle(np.exp(1j * (x - y))))
+            bad = []
+            if off(offs[360], 0) > 1e-9: bad.append('rotate=360 is not a full turn')
+            if off(abs(offs[90]), np.pi / 2) > 1e-9: bad.append(f'rotate=90 shifts theta by {offs[90]:.6f} rad')
+            if off(offs[90] + offs[-90], 0) > 1e-9: bad.append('rotate=90 and rotate=-90 do not cancel')
+            if off(abs(offs[180]), np.pi) > 1e-9: bad.append(f'rotate=180 shifts theta by {offs[180]:.6f} rad')
+            if off(offs[30] + offs[60], offs[90]) > 1e-9: bad.append('rotate=30 then 60 is not rotate=90')
+            if bad:
+                acc.violation('coords:rotate-degrees', case, '; '.join(bad))
+            acc.cls('rotate')
+        except Exception as e:
+            acc.violation(f'coords:rotate:raises:{type(e).__name__}', case, repr(e))
     if val == 1:
         modes = [4, 2, 7, 1, 11]
         for normalize in (True, False):
